@@ -1622,6 +1622,9 @@ func rC07Units(w *World, r *Report) {
 					return
 				}
 				arg := c.Call.Args[0]
+				if cv, ok := arg.(*ssa.Convert); ok && typeString(cv.Type()) == "[]byte" {
+					arg = cv.X // len([]byte(s)) is the byte length of s
+				}
 				if b, ok := arg.Type().Underlying().(*types.Basic); !ok || b.Info()&types.IsString == 0 {
 					return
 				}
@@ -1733,6 +1736,39 @@ func rC07Bundling(w *World, r *Report) {
 			}
 		}
 		ru.Check(good, "bundling/value-to-last", w.IPos(st), "attached value stored into opts[len(opts)-1]", "the attached value of a bundle is not given to the last option only")
+		// the store happens for every bundle that has a value: the only conditions on it are "there is a pair"
+		// (len(opts) > 0, or nothing: the text group is never empty) and "there is a value"
+		extra := ""
+		for _, f := range factsAt(st.Block()) {
+			if f.If == nil || !inBundling(f.If.Block()) {
+				continue
+			}
+			x, y, op := f.X, f.Y, f.Op
+			if y != nil {
+				if _, isC := x.(*ssa.Const); isC {
+					x, y = y, x
+					switch op {
+					case token.LSS:
+						op = token.GTR
+					case token.GTR:
+						op = token.LSS
+					case token.LEQ:
+						op = token.GEQ
+					case token.GEQ:
+						op = token.LEQ
+					}
+				}
+				if c, ok := lenOf(x); ok && typeString(c.Type()) == "[]getoptions.optionPair" {
+					k, isK := constInt(y)
+					if isK && ((op == token.GTR && k == 0) || (op == token.GEQ && k == 1) || (op == token.NEQ && k == 0)) {
+						continue
+					}
+					extra = w.IPos(f.If)
+					continue
+				}
+			}
+		}
+		ru.Check(extra == "", "bundling/value-kept", w.IPos(st), "stored whenever the bundle has at least one option", "the attached value of a bundle is stored only under a stronger condition on the number of options (at "+extra+"): `-p=80` with a single letter loses `=80`")
 	})
 	if stores == 0 {
 		ru.Bad("bundling/value-to-last", w.Pos(fn.Pos()), "the Bundling arm never stores an attached value")
